@@ -282,7 +282,7 @@ def run_profile_vector(ctx, v):
 def slog(x):
     if not (x > 0.0) or x != x or x == float('inf'):
         return -(2 ** 30) + 1
-    return max(-(2 ** 30) + 1, int(round(math.log10(x) * SLOG)))
+    return min(2 ** 30 - 1, max(-(2 ** 30) + 1, int(round(math.log10(x) * SLOG))))
 
 
 def grid(r):
@@ -340,9 +340,16 @@ def exact_event(r):
         e['v'] = []
         return e, err or 'no finite positive profile'
     if kind == 'array':
+        if np.any(prof < -1.0) or np.any(prof > 2.0):      # keep TLC's 32-bit arithmetic safe: such a profile is no profile
+            e['v'] = []
+            return e, 'profile far outside [0, 1]: %r' % prof[:3]
         e['v'] = [int(round(x * 16 * S)) for x in prof]
     else:
-        e['v'] = [int(round(math.log10(x) * S)) for x in prof]
+        lg = np.log10(prof)
+        if np.any(lg < -15.0) or np.any(lg > 1.0):
+            e['v'] = []
+            return e, 'profile far outside the control range: %r' % prof[:3]
+        e['v'] = [int(round(x * S)) for x in lg]
     return e, 'profile[0..2] %r' % prof[:3]
 
 
@@ -378,11 +385,12 @@ def mix_event(r):
                  invalid=invalid, x=[], mix=[], badsum=0, neg=0, badmu=0)
         # the trace profiles are needed by the spec to decide the validity verdict as well
         xs = [np.asarray(g_.mixProfile, dtype=float) for g_ in chem._gases]
-        e['x'] = [[int(round(v * SMIX)) for v in row] for row in xs]
+        clampi = lambda v: int(round(min(max(v, -2.0), 2.0) * SMIX)) if np.isfinite(v) else -1
+        e['x'] = [[clampi(v) for v in row] for row in xs]
         detail = 'invalid' if invalid else ''
         if not invalid:
             mix = np.asarray(chem.mixProfile, dtype=float)
-            e['mix'] = [[int(round(v * SMIX)) if np.isfinite(v) else -1 for v in row] for row in mix]
+            e['mix'] = [[clampi(v) for v in row] for row in mix]
             e['badsum'] = int((np.abs(mix.sum(axis=0) - 1.0) > 1e-12).sum())
             e['neg'] = int((~(mix >= 0.0)).sum())
             masses = np.array([float(indep_mass(g)) for g in gases])
@@ -540,6 +548,8 @@ def validate(ctx, recipes, label, canary=True):
         for c in cands:
             kinds.setdefault(c['ev'], c)
         if not kinds:
+            if badids:       # every candidate was rejected already: TLC demonstrably rejects, nothing to corrupt
+                return len(events)
             raise Machinery('no event available for the canary (%s)' % label)
         cl = list(kinds.values())
         for k, c in enumerate(cl):
